@@ -48,6 +48,25 @@ type job struct {
 	Vars    string `json:"vars"` // JSON text of the variable map ("null" = nil map)
 	Origin  string `json:"origin"`
 	Heavy   bool   `json:"heavy,omitempty"` // polynomially expensive by design: run in a child process on the CPU clock
+	// a BATCH of documents for one child process (family cyclicMixedExclusive: thousands of tiny documents, each of
+	// which may kill the process): the child runs Batch[From:] in order and writes one outcome line per document, so
+	// that the parent knows which document was in flight when the process died
+	Batch []batchDoc `json:"batch,omitempty"`
+	From  int        `json:"from,omitempty"`
+	Tags  []string   `json:"tags,omitempty"` // histogram tags of the generator
+}
+
+type batchDoc struct {
+	Src  string   `json:"src"`
+	Tags []string `json:"tags,omitempty"`
+}
+
+// single = the job of document i of a batch (what is recorded and what a replay file holds)
+func (j job) single(i int) job {
+	s := j
+	s.Batch, s.From = nil, 0
+	s.Src, s.Tags = j.Batch[i].Src, j.Batch[i].Tags
+	return s
 }
 
 type outcome struct {
@@ -333,6 +352,75 @@ func selfCPU() time.Duration {
 	return time.Duration(ru.Utime.Nano() + ru.Stime.Nano())
 }
 
+// guardedExec = execJob with panics turned into an outcome.
+func guardedExec(j job) (o outcome) {
+	defer func() {
+		if r := recover(); r != nil {
+			st := string(debug.Stack())
+			if i := strings.Index(st, "panic("); i >= 0 {
+				st = st[i:]
+			}
+			if len(st) > 1500 {
+				st = st[:1500]
+			}
+			o.Violation = fmt.Sprintf("PANIC escaped %s: %v", j.Entry, r)
+			o.Class = "panic"
+			o.Detail = st
+		}
+	}()
+	return execJob(j)
+}
+
+// childBatch runs j.Batch[j.From:] in ONE goroutine (a goroutine and a ticker per document cost more than these tiny
+// documents themselves) and writes one outcome line per document, unbuffered, so that what is on stdout when the
+// process dies tells the parent which document was in flight. The main goroutine is the watchdog: when the current
+// document exceeds its CPU-time limit it writes the timeout outcome for it and ends the process (the rest of the
+// batch goes to a fresh one).
+func childBatch(j job) {
+	var mu sync.Mutex
+	cur, curT0, curC0 := j.From, time.Now(), selfCPU()
+	finished := make(chan struct{})
+	emit := func(o outcome, t0 time.Time, c0 time.Duration, limit time.Duration) {
+		o.Child = true
+		o.Ms = float64(time.Since(t0).Microseconds()) / 1000
+		o.CpuMs = float64((selfCPU() - c0).Microseconds()) / 1000
+		o.LimitMs = float64(limit.Milliseconds())
+		b, _ := json.Marshal(o)
+		os.Stdout.Write(append(b, '\n'))
+	}
+	go func() {
+		defer close(finished)
+		for i := j.From; i < len(j.Batch); i++ {
+			s := j.single(i)
+			mu.Lock()
+			cur, curT0, curC0 = i, time.Now(), selfCPU()
+			t0, c0 := curT0, curC0
+			mu.Unlock()
+			o := guardedExec(s)
+			mu.Lock()
+			emit(o, t0, c0, timeLimit(s))
+			mu.Unlock()
+		}
+	}()
+	tick := time.NewTicker(100 * time.Millisecond)
+	defer tick.Stop()
+	for {
+		select {
+		case <-finished:
+			return
+		case <-tick.C:
+			mu.Lock()
+			s := j.single(cur)
+			limit := timeLimit(s)
+			if used := selfCPU() - curC0; used > limit || time.Since(curT0) > 20*limit {
+				emit(outcome{Timeout: true, Class: "timeout", Violation: fmt.Sprintf("%s did not return within %v of CPU time (input %d bytes; used %v CPU, %v wall)", s.Entry, limit, len(s.Src)+len(s.Vars), used.Round(time.Millisecond), time.Since(curT0).Round(time.Millisecond))}, curT0, curC0, limit)
+				os.Exit(0) // with the lock held: the abandoned goroutine cannot report this document a second time
+			}
+			mu.Unlock()
+		}
+	}
+}
+
 // runJob = execJob under recover and watchdog. In the parent the watchdog measures wall-clock time; in a child
 // process (one job per process) it measures the CPU time of the process, which does not depend on the machine's load.
 func runJob(j job, cpuClock bool) outcome {
@@ -340,25 +428,7 @@ func runJob(j job, cpuClock bool) outcome {
 	done := make(chan outcome, 1)
 	t0 := time.Now()
 	c0 := selfCPU()
-	go func() {
-		var o outcome
-		defer func() {
-			if r := recover(); r != nil {
-				st := string(debug.Stack())
-				if i := strings.Index(st, "panic("); i >= 0 {
-					st = st[i:]
-				}
-				if len(st) > 1500 {
-					st = st[:1500]
-				}
-				o.Violation = fmt.Sprintf("PANIC escaped %s: %v", j.Entry, r)
-				o.Class = "panic"
-				o.Detail = st
-			}
-			done <- o
-		}()
-		o = execJob(j)
-	}()
+	go func() { done <- guardedExec(j) }()
 	var o outcome
 	if cpuClock {
 		tick := time.NewTicker(100 * time.Millisecond)
@@ -399,10 +469,88 @@ func childMain() {
 		fmt.Fprintln(os.Stderr, "child: bad job:", err)
 		os.Exit(3)
 	}
+	if len(j.Batch) > 0 {
+		childBatch(j)
+		return
+	}
 	o := runJob(j, true)
 	o.Child = true
 	b, _ := json.Marshal(o)
 	os.Stdout.Write(b)
+}
+
+// runBatchChild runs j.Batch[from:] in one child process; outs = the outcomes it reported (in order), died = the
+// process ended abnormally (so document from+len(outs) was in flight).
+func runBatchChild(j job, from int) (outs []outcome, died bool, detail string) {
+	exe, err := os.Executable()
+	if err != nil {
+		return nil, false, err.Error()
+	}
+	jj := j
+	jj.From = from
+	b, _ := json.Marshal(jj)
+	ctx, cancel := context.WithTimeout(context.Background(), 15*time.Minute)
+	defer cancel()
+	cmd := exec.CommandContext(ctx, exe, "--child")
+	cmd.Env = append(os.Environ(), "GOMAXPROCS=2")
+	cmd.Stdin = bytes.NewReader(b)
+	var stdout, stderr bytes.Buffer
+	cmd.Stdout = &stdout
+	cmd.Stderr = &tailWriter{max: 6000, buf: &stderr}
+	err = cmd.Run()
+	for _, line := range bytes.Split(stdout.Bytes(), []byte{'\n'}) {
+		var o outcome
+		if len(line) == 0 || json.Unmarshal(line, &o) != nil {
+			break
+		}
+		o.Child = true
+		outs = append(outs, o)
+	}
+	if len(outs) > len(j.Batch)-from {
+		outs = outs[:len(j.Batch)-from]
+	}
+	head := stderr.String()
+	if len(head) > 1200 {
+		head = head[:1200]
+	}
+	if err != nil {
+		return outs, true, fmt.Sprintf("%v: %s", err, head)
+	}
+	return outs, false, head
+}
+
+// runBatch runs every document of a batch job, a child process at a time. When a child dies, the document that was
+// in flight is re-run ALONE in its own child process (runInChild): that outcome, with its single-document job, is
+// what gets reported; the batch then continues behind it in a fresh process.
+func runBatch(j job, stop func() bool, emit func(done)) {
+	for from := 0; from < len(j.Batch) && !stop(); {
+		outs, died, detail := runBatchChild(j, from)
+		for k, o := range outs {
+			emit(done{j.single(from + k), o}) // at once: stop() must see a violation before the next child starts
+		}
+		from += len(outs)
+		if from >= len(j.Batch) {
+			break
+		}
+		if !died && len(outs) > 0 && !outs[len(outs)-1].Timeout {
+			died = true // the child stopped early without saying why: treat the next document as in flight
+		}
+		if !died && len(outs) > 0 {
+			continue // stopped after a timeout: the rest goes to a fresh process
+		}
+		one := j.single(from)
+		o := runInChild(one)
+		if o.Violation == "" && o.Class != "harness-error" {
+			if len(outs) == 0 && !died {
+				o = outcome{Child: true, Class: "harness-error", Detail: "batch child reported nothing: " + detail}
+			} else {
+				o = outcome{Child: true, Class: "process-died", Detail: detail,
+					Violation: "the process running a batch of documents through " + j.Entry + " DIED at this document, which passes when run alone in a fresh process (state carried over from the preceding documents?)"}
+			}
+		}
+		emit(done{one, o})
+		from++
+	}
 }
 
 func runInChild(j job) outcome {
@@ -574,6 +722,10 @@ func newPool(run *hx.Run, workers int) *pool {
 			}
 			for j := range p.jobs {
 				var o outcome
+				if len(j.Batch) > 0 {
+					runBatch(j, p.stop, func(d done) { p.results <- d })
+					continue
+				}
 				if risky(j) {
 					o = runInChild(j)
 				} else {
@@ -634,12 +786,15 @@ func (p *pool) record(j job, o outcome) {
 	run.Tag("class:" + o.Class)
 	run.Tag("origin:" + j.Origin)
 	run.Tag("schema:" + schemas[j.Schema%len(schemas)].name)
+	for _, t := range j.Tags {
+		run.Tag(t)
+	}
 	if o.Child {
 		run.Tag("ran-in-child-process")
 	}
 	p.slow = append(p.slow, slowJob{entry, j.Origin, len(j.Src) + len(j.Vars), o.Ms, o.CpuMs, o.LimitMs})
 	sort.Slice(p.slow, func(a, b int) bool { return p.slow[a].Ms > p.slow[b].Ms })
-	if max := 12; len(p.slow) > max && os.Getenv("VERIF_C09_ONLY") == "" {
+	if max := 12; len(p.slow) > max && os.Getenv("VERIF_C09_ONLY") != "nasty" {
 		p.slow = p.slow[:max]
 	}
 	nontrivial := len(j.Src) > 0 && (o.Parsed || j.Entry == "Parse" || j.Entry == "Do" || j.Entry == "Subscribe" || strings.HasPrefix(j.Entry, "CacheGet"))
@@ -745,7 +900,7 @@ func main() {
 	}
 	run := hx.Begin("C09") // parses the flags
 	buildSchemas()
-	run.Res.Rule = "job = (entry point or nil/zero-parameter variant, one of 4 schemas, document text, operation name, variables JSON); texts: grammar-directed documents and their mutations (byte flips, token insert/delete/duplicate, truncation, splices), hand-written nasties (fragment cycles of length 1-4 directly and through fields, unknown types, type-system definitions in requests, missing/ambiguous operations, 10k-deep nesting, 10k-wide sets, huge literals), seed corpus (kitchen sinks, corpus/C09) under a coverage-less mutational loop; every AST the real parser accepts is fed UNVALIDATED to ValidateDocument, PlanQuery+ExecutePlan x2, Execute, ExecuteSubscription, and as text to Do, Subscribe, PlanCache.Get (normalize off/on, miss+hit); non-trivial = non-empty input that the parser accepted or that went through a text-level entry point; distinct by the whole job"
+	run.Res.Rule = "job = (entry point or nil/zero-parameter variant, one of 4 schemas, document text, operation name, variables JSON); texts: grammar-directed documents and their mutations (byte flips, token insert/delete/duplicate, truncation, splices), hand-written nasties (fragment cycles of length 1-4 directly and through fields, unknown types, type-system definitions in requests, missing/ambiguous operations, 10k-deep nesting, 10k-wide sets, huge literals), generated family cyclicMixedExclusive (harness/cycfam: fragment tables of 2-3 fragments on different / the same object types and on the interface, spread side by side below an abstract field, bodies = subsets of {x: a { ...Fj }, ...Fj, plain field}: all 8649 two-fragment tables plus a seeded random sample with three fragments, through ValidateDocument, Do and PlanCache.Get in child processes), seed corpus (kitchen sinks, corpus/C09) under a coverage-less mutational loop; every AST the real parser accepts is fed UNVALIDATED to ValidateDocument, PlanQuery+ExecutePlan x2, Execute, ExecuteSubscription, and as text to Do, Subscribe, PlanCache.Get (normalize off/on, miss+hit); non-trivial = non-empty input that the parser accepted or that went through a text-level entry point; distinct by the whole job"
 
 	if run.ReplayIn != "" {
 		var rp struct {
@@ -775,6 +930,24 @@ func main() {
 	// (0) nil / zero parameters and hand-written nasties, every entry point, every schema
 	for _, j := range nilParamJobs() {
 		p.submit(j)
+	}
+	// (0') generated family cyclicMixedExclusive (cyclicfam.go): batches of tiny cyclic documents, a child process each
+	famDocs := 0
+	if only := os.Getenv("VERIF_C09_ONLY"); only == "" || only == "cyclic" {
+		for _, j := range cyclicFamilyJobs(run) {
+			if p.stop() {
+				break
+			}
+			famDocs += len(j.Batch)
+			p.submit(j)
+		}
+	}
+	run.Res.Extra["cyclicMixedExclusive_jobs"] = famDocs
+	if os.Getenv("VERIF_C09_ONLY") == "cyclic" {
+		p.close()
+		run.Res.Extra["slowest_jobs"] = p.slow
+		run.Finish()
+		return
 	}
 	for _, n := range nasties(run.Thorough()) {
 		for si := range schemas {
